@@ -156,3 +156,28 @@ func (w *ErrWriter) Write(p []byte) (int, error) {
 func (w *ErrWriter) Err() error {
 	return w.err
 }
+
+// NoEmptyReads wraps r so that a Read returning (0, nil) is retried. io.Reader
+// permits such a read and asks callers to treat it as "nothing happened", but
+// the IPLD stream decoders mistake it for a zero byte.
+func NoEmptyReads(r io.Reader) io.Reader {
+	return noEmptyReads{r: r}
+}
+
+type noEmptyReads struct {
+	r io.Reader
+}
+
+// Read implements io.Reader.
+func (n noEmptyReads) Read(p []byte) (int, error) {
+	if len(p) == 0 {
+		return n.r.Read(p)
+	}
+	for i := 0; i < 100; i++ {
+		k, err := n.r.Read(p)
+		if k > 0 || err != nil {
+			return k, err
+		}
+	}
+	return 0, io.ErrNoProgress
+}
